@@ -124,6 +124,37 @@ func (c *Chooser) Choose(n int, label string) int {
 	return c.choose(point{n: n, label: label})
 }
 
+// ChooseLate is a choice point whose menu size is only known later in the
+// execution (FixLate): alternative 0 is the default, every other costs one
+// deviation. It returns the choice and the handle to pass to FixLate. Until
+// FixLate is called the point has no alternatives.
+func (c *Chooser) ChooseLate(label string) (choice, handle int) {
+	pos := len(c.x.Choices)
+	ch := 0
+	if pos < len(c.prefix) {
+		ch = c.prefix[pos]
+	}
+	if ch != 0 {
+		c.cost++
+	}
+	c.x.Choices = append(c.x.Choices, ch)
+	c.x.points = append(c.x.points, point{n: ch + 1, label: label})
+	return ch, pos
+}
+
+// FixLate sets the menu size of a ChooseLate point.
+func (c *Chooser) FixLate(handle, n int) {
+	ch := c.x.Choices[handle]
+	if ch >= n {
+		if c.ex.Strict {
+			panic(InfraError{fmt.Sprintf("replay divergence at late point %d (%s): choice %d but menu has %d entries",
+				handle, c.x.points[handle].label, ch, n)})
+		}
+		panic(divergedExec{})
+	}
+	c.x.points[handle].n = n
+}
+
 // ChooseFree is Choose with all alternatives free of deviation cost.
 func (c *Chooser) ChooseFree(n int, label string) int {
 	return c.choose(point{n: n, costs: make([]int, n), label: label})
